@@ -154,6 +154,21 @@ def run(ctx: Ctx) -> None:
             got = G.lex_kind(txt, acc)
             ctx.check(got == kind, "R4", f"{name}: {txt}", "mappyfile/mapfile.lark", f"{kind}", f"the number text {txt!r} (what str() writes for such a value) is read back as {got or 'several tokens / no token'} instead of one {kind}: the value does not survive a print / parse cycle")
 
+    # quoted text: whatever stands between the quotes, the printer's Q...Q is one string token
+    ctx.rule("R4b", "a printed quoted string is read back as one string token whatever its body contains (spaces, #, comment markers, brackets, the other quote, an escaped quote, nothing); hex colour bodies as one hex colour token", 30)
+    for q, kind, hexkind in (('"', "DOUBLE_QUOTED_STRING", "DOUBLE_QUOTED_HEXCOLOR"), ("'", "SINGLE_QUOTED_STRING", "SINGLE_QUOTED_HEXCOLOR")):
+        other = "'" if q == '"' else '"'
+        bodies = ["abc", "a b", " a ", "a#b", "# not a comment", "a /* b */ c", "[x]", "(x = 1)", "/x/", "{a,b}", "x" + other + "y", "a\\" + q + "b", "", "END", "7", "1.5", "a\tb", "\u00fc\u00f1\u00ef"]
+        for body in bodies:
+            txt = q + body + q
+            got = G.lex_kind(txt, acc)
+            ctx.check(got == kind, "R4b", f"{kind}: body {body!r}", "mappyfile/mapfile.lark", kind, f"the quoted text {txt!r} is read back as {got or 'several tokens / no token'} instead of one {kind}")
+        for body in ["#fff", "#FF0000", "#ff000080", "#abcd"]:
+            txt = q + body + q
+            got = G.lex_kind(txt, acc)
+            want = hexkind if len(body) - 1 in (3, 5, 6, 8) else kind
+            ctx.check(got == want, "R4b", f"{hexkind}: body {body!r}", "mappyfile/mapfile.lark", want, f"the quoted colour {txt!r} is read back as {got or 'several tokens'} instead of {want}")
+
     # ---- R2 structure -------------------------------------------------------------------------------
     ctx.rule("R2", "the printer visits keys in dictionary order and recurses on the keys composite() uses for child objects", 2)
     L = layout.Layout(e)
